@@ -25,7 +25,9 @@ RULE = ('C01-grammar scripts (structured random ASTs incl. zero equations, verba
         'quotes / backslashes / control and non-ASCII Latin-1 characters, name None, the empty list) x with_type_hints {True, False} x '
         'lags/leads/min_lags/min_leads options x converter {default, identity-on-code, wrapping, counting, empty, non-compiling}. '
         'Non-trivial = a text was generated and either >= 1 expression was emitted or a non-default option / converter was used; '
-        'distinct by hash of the case.')
+        'distinct by hash of the case.  HISTORIES: two to three builds in one process with the SAME converter object (counting, logging, '
+        'stateless) on equal and on other symbols, each step compared with the model (the counter continued) and judged by the oracle; '
+        'converter outputs, code, verbatim blocks and names containing the template field tokens {lags} {errors} ... and doubled braces.')
 TRUSTED = ['extraction of the parser and class-building models to OCaml (ExtrOcamlBasic + ExtrOcamlString only) and coq/Extract/Build/driver.ml',
            'harness/build_common.py (driver runner; Python twins of the converters of BuildDef.v)', "CPython's exec of the generated class text (observed)"]
 ASSUMPTIONS = ['strings are Latin-1; options are built-in ints or None',
@@ -35,14 +37,19 @@ ASSUMPTIONS = ['strings are Latin-1; options are built-in ints or None',
 EXHAUSTIVE = {'quick': False, 'thorough': False}
 CASE_TIMEOUT = 60
 SOURCES = ['parser.py']
-CONVS = ['default', 'code', 'wrap', 'count', 'empty']
+CONVS = ['default', 'code', 'wrap', 'count', 'empty', 'fields']
 ATTRS = ('ENDOGENOUS', 'EXOGENOUS', 'PARAMETERS', 'ERRORS', 'NAMES', 'CHECK', 'LAGS', 'LEADS')
 PREFIX = ' ' * 8
+
+
+FIELD_TOKENS = '  # {endogenous} {exogenous} {parameters} {errors} {lags} {leads} {equations} {{x}}'
 
 
 def make_conv(kind):
     if kind == 'broken':
         return lambda s: 'x = ('
+    if kind == 'fields':                     # output containing the template's own field tokens: they must stay as they are
+        return lambda s: s.code + FIELD_TOKENS
     return bc.make_converter(kind)
 
 
@@ -89,6 +96,24 @@ def _evaluate(cls, seed, lags, leads):
 
 
 def impl(case):
+    """one build, or a HISTORY: several builds in this process sharing ONE converter object per kind (a stateful converter
+    keeps its state; anything memoised per converter / symbol would show)"""
+    if case.get('k') != 'history':
+        return impl_one(case, None)
+    shared = {}
+    return {'steps': [impl_one(st, shared) for st in case['steps']]}
+
+
+def _flat(cases, obs):
+    for i, (c, o) in enumerate(zip(cases, obs)):
+        if c.get('k') == 'history':
+            for st, so in zip(c['steps'], o['steps']):
+                yield st, so, i
+        else:
+            yield c, o, i
+
+
+def impl_one(case, shared):
     import fsic
     o = {}
     if case.get('symbols') is not None:
@@ -105,7 +130,12 @@ def impl(case):
     kw = bc.build_kwargs(case['opts'])
     hints = case['hints']
     kind = case['conv']
-    lg = bc.Logged(make_conv(kind))
+    if shared is None:
+        lg = bc.Logged(make_conv(kind))
+    else:
+        lg = shared.setdefault(kind, bc.Logged(make_conv(kind)))      # the same callable object as in the earlier steps
+        lg.calls, lg.returned = [], []
+    o['count0'] = lg.f.n if kind == 'count' else 0
     try:
         text = fsic.build_model_definition(syms, converter=lg, with_type_hints=hints, **kw)
     except BaseException as e:      # noqa: BLE001
@@ -140,7 +170,11 @@ def impl(case):
     try:
         cls_a = fsic.build_model(syms, converter=real_conv(kind), with_type_hints=hints, **kw)
         ways['build_model'] = cls_a
-        o['code_is_text'] = getattr(cls_a, 'CODE', None) == text
+        ref_text = text
+        if kind == 'count' and o['count0']:
+            # build_model gets its own fresh counting converter: its CODE is the text of a build that counts from 0
+            ref_text = fsic.build_model_definition(syms, converter=make_conv(kind), with_type_hints=hints, **kw)
+        o['code_is_text'] = getattr(cls_a, 'CODE', None) == ref_text
     except BaseException as e:      # noqa: BLE001
         o['build_exc'] = type(e).__name__
         cls_a = None
@@ -185,8 +219,11 @@ def impl(case):
 
 
 # --------------------------------------------------------------------------- correspondence
-def _req(c):
-    return 'B %s %s %d %s' % (bc.enc_src(c), bc.enc_opts(bc.full_opts(c['opts'])), 1 if c['hints'] else 0, c['conv'])
+def _req(c, o=None):
+    conv = c['conv']
+    if conv == 'count' and o and o.get('count0'):
+        conv = 'count@%d' % o['count0']              # the counting converter continues from the earlier builds of a history
+    return 'B %s %s %d %s' % (bc.enc_src(c), bc.enc_opts(bc.full_opts(c['opts'])), 1 if c['hints'] else 0, conv)
 
 
 def _exec_model_ok(x, o):
@@ -203,7 +240,13 @@ def _exec_model_ok(x, o):
 
 
 def correspond(cases, obs, tag, tier):
-    reqs = [_req(c) for c in cases]
+    flat = list(_flat(cases, obs))
+    bad, errs = correspond_flat([f[0] for f in flat], [f[1] for f in flat])
+    return sorted({flat[j][2] for j in bad}), errs
+
+
+def correspond_flat(cases, obs):
+    reqs = [_req(c, o) for c, o in zip(cases, obs)]
     xs = [i for i, o in enumerate(obs) if 'text' in o]
     ans, errs = bc.run_driver(reqs + ['X ' + obs[i]['text'] for i in xs])
     if errs:
@@ -229,7 +272,9 @@ def correspond(cases, obs, tag, tier):
 
 
 def explain(case, obs):
-    ans, errs = bc.run_driver([_req(case)])
+    if case.get('k') == 'history':
+        return [explain(st, so) for st, so in zip(case['steps'], obs['steps'])]
+    ans, errs = bc.run_driver([_req(case, obs)])
     a = ans[0] if ans else None
     if a and a.startswith('O:'):
         h, n = a[2:].split('|')
@@ -242,7 +287,7 @@ def _f(clause, cls, what):
     return {'sig': 'C15|%s|%s' % (clause, cls), 'what': what}
 
 
-def oracle(case, o):
+def oracle_one(case, o):
     out = []
     if 'parse_exc' in o:
         return out                                   # rejected scripts are C03 / C13's business
@@ -317,15 +362,29 @@ def oracle(case, o):
     return out
 
 
+def oracle(case, o):
+    if case.get('k') != 'history':
+        return oracle_one(case, o)
+    out = []
+    for j, (st, so) in enumerate(zip(case['steps'], o['steps'])):
+        for f in oracle_one(st, so):
+            out.append({'sig': f['sig'], 'what': 'step %d of a history (same converter object throughout): %s' % (j, f['what'])})
+    return out
+
+
 def guard(case, o):
     return False
 
 
 def nontrivial(case, o):
+    if case.get('k') == 'history':
+        return any(nontrivial(st, so) for st, so in zip(case['steps'], o['steps']))
     return 'text' in o and (bool(o.get('emitting')) or bool(case['opts']) or case['conv'] != 'default')
 
 
 def bucket(case, o):
+    if case.get('k') == 'history':
+        return 'history/%s/%d steps' % (case.get('hk', '?'), len(case['steps']))
     src = 'symbols' if case.get('symbols') is not None else ('ast' if case.get('kind') == 'ast' else case.get('kind', 'script'))
     if 'parse_exc' in o:
         return '%s/rejected' % src
@@ -337,6 +396,12 @@ def bucket(case, o):
 
 
 def shrink_candidates(case):
+    if case.get('k') == 'history':
+        n = len(case['steps'])
+        for i in range(n):
+            if n > 1:
+                yield dict(case, steps=case['steps'][:i] + case['steps'][i + 1:])
+        return
     c = case
     if c.get('symbols'):
         for i in range(len(c['symbols'])):
@@ -382,6 +447,10 @@ SYMBOL_LISTS = [
     [S('caf\xe9', 'EXOGENOUS'), S('\xa0nbsp', 'EXOGENOUS'), S('soft\xadhyphen', 'PARAMETER'), S('\x80\x9f\xff', 'ERROR')],
     [S(None, 'ENDOGENOUS', 0, 0, 'e', 'pass'), S(None, 'EXOGENOUS')],                               # name None outside verbatim
     [S('Y', 'ENDOGENOUS', -3, 0, 'Y[t] = {x}', 'self._Y[t] = {}  # {{braces}} {0} stay verbatim')],
+    # code, equations and verbatim blocks that contain the template's own field tokens (and doubled braces)
+    [S('Y', 'ENDOGENOUS', 0, 0, 'Y[t] = {errors}', "self._Y[t] = len('{errors} {lags} {leads} {endogenous} {exogenous} {parameters} {equations}')"),
+     S('e', 'ERROR', -2, 0), S(None, 'VERBATIM', equation='`x = "{lags}{{y}}"`', code='x = "{lags}{{y}}"')],
+    [S('{lags}', 'EXOGENOUS'), S('{equations}', 'PARAMETER', -1, 1), S('{errors}', 'ERROR')],
     # code that does not compile: build_model must raise BuildError (the symbol itself reproduces the error / only the whole does)
     [S('Y', 'ENDOGENOUS', 0, 0, 'Y[t] = (', 'self._Y[t] = (')],
     [S('X', 'EXOGENOUS'), S('Y', 'ENDOGENOUS', 0, 0, 'Y[t] = 1', 'self._Y[t] = 1.0'), S('B', 'ENDOGENOUS', 0, 0, 'B[t] = (', 'x = (')],
@@ -479,4 +548,32 @@ def gen(rng, tier):
     for _ in range(300 if big else 60):
         ast = bc.gen_ast(rng, safe=True, n_eq=rng.choice([1, 2, 3]))
         add('ast', script=bc.render_ast(ast), hints=rng.random() < 0.5, conv='broken')
+    # histories: the SAME converter object used for several builds in one process (equal symbols, then other symbols)
+    def one(script=None, symbols=None, conv='count', hints=True, opts=None, safe=False):
+        return {'kind': 'history-step', 'script': script, 'symbols': symbols, 'opts': opts or {}, 'hints': hints, 'conv': conv,
+                'seed': rng.randrange(1 << 30), 'safe': safe}
+    for _ in range(400 if big else 60):
+        ast = bc.gen_ast(rng, safe=True, n_eq=rng.choice([1, 2, 3]))
+        seen, keep = set(), []
+        for eq in ast:
+            if eq[0][1] not in seen:
+                seen.add(eq[0][1])
+                keep.append(eq)
+        script = bc.render_ast(keep)
+        other = rng.choice(CORPUS[2:6])
+        conv = rng.choice(['count', 'count', 'default', 'wrap', 'fields', 'code'])
+        h = rng.random() < 0.5
+        steps = [one(script, conv=conv, hints=h, safe=True), one(script, conv=conv, hints=h, safe=True)]
+        r = rng.random()
+        if r < 0.3:
+            steps.append(one(script, conv=conv, hints=not h, safe=True))
+        elif r < 0.6:
+            steps.insert(1, one(other, conv=conv, hints=h))
+        elif r < 0.8:
+            steps.append(one(script, conv=conv, hints=h, opts={'min_lags': 2}, safe=True))
+        cases.append({'k': 'history', 'hk': 'same-converter/' + conv, 'steps': steps})
+    for syms in SYMBOL_LISTS[2:14]:
+        for conv in ('count', 'default'):
+            cases.append({'k': 'history', 'hk': 'same-converter/' + conv, 'steps': [one(symbols=syms, conv=conv), one(symbols=syms, conv=conv, hints=False),
+                                                                       one(symbols=syms, conv=conv)]})
     return cases
